@@ -183,8 +183,10 @@ def sweep_pairs(quick):
 
 NAME_FAMILIES = {"dots": ["KICK.1", "KICK.2", "V1.5 PAD"], "hash": ["#1", "#2", "A#B"], "plus": ["A+B", "A+C", "+"],
                  "dash": ["A-", "B-", "-C"], "dotend": ["A.", "B.", ".C"], "digits": ["1", "2", "10"],
-                 "spaces": ["A B", "A  B", "A B C"], "long12": ["ABCDEFGHIJKL", "ABCDEFGHIJKM", "ABCDEFGHIJ.L"], "wavext": ["KICK", "KICK.WAV", "KICK.WAV.WAV"], "dup": ["KICK", "KICK", "SNARE"], "dup3": ["KICK", "KICK", "KICK"]}
-VOL_NAMES = ["VOL", "VOL 1.5", "V.", "#+-."]
+                 "spaces": ["A B", "A  B", "A B C"], "long12": ["ABCDEFGHIJKL", "ABCDEFGHIJKM", "ABCDEFGHIJ.L"], "wavext": ["KICK", "KICK.WAV", "KICK.WAV.WAV"], "dup": ["KICK", "KICK", "SNARE"], "dup3": ["KICK", "KICK", "KICK"],
+                 # every one of the 41 characters an AKAI name can hold, spread over names and volume names
+                 "alpha1": ["0123456789 A", "BCDEFGHIJKLM", "NOPQRSTUVWXY"], "alpha2": ["Z#+-. FUZZ", "JAZZ", "Z"]}
+VOL_NAMES = ["VOL", "VOL 1.5", "V.", "#+-.", "XYZ 0-9"]
 
 
 def sweep_names(quick):
@@ -306,7 +308,7 @@ class Check(CheckBase):
             "2-sector directory]; (length) boundary word counts x start/end markers x chain order; (header) rate x "
             "sample id x file type x volume type; (sizes) every partition size 6..139 sectors (thorough ..399), alternately followed by a second partition; (slack) chains longer than the file needs x order x markers; (structure) partitions{1,2,3} x volumes{0,1,2} x files{0..3} x "
             "volume type x directory storage, L/R pair, non-sample siblings, trailing bytes; (pairs) all pairs of "
-            "single deviations; (names) 11 families (incl. two / three distinct samples with one name) of names using the non-letter characters of the AKAI set (. # + - digits "
+            "single deviations; (names) 13 families (covering all 41 characters) (incl. two / three distinct samples with one name) of names using the non-letter characters of the AKAI set (. # + - digits "
             "blanks, 12 characters) x 4 volume names, judged by content only; (slots) every set of <=3 (thorough 4) occupied "
             "volume-table slots out of {0,1,2,3,50,98,99} in both storage orders; (bigdir) volumes of 63..510 one-sector samples "
             "(around powers of two and the 340-entry capacity of a one-sector file table); (pairlen) equal-length L/R pairs of 1..12219 words (around the 2048-word block and the sector "
